@@ -1,7 +1,130 @@
-/- Line-protocol engine for C20 — stub, to be filled in. -/
-import CV.Proto
+/-
+Line-protocol engine for C20 (snapshot archives). See go/overlay/internal/verifharness/c20.
+
+The digest function of `CV.Tar` is instantiated with `CV.Sha256.sha256`; the metadata codec
+(`json.Unmarshal` onto the current struct) is an oracle carried on the operation line: one
+token per `meta.json` member in archive order, `!` when decoding fails, otherwise the canonical
+form of the struct after decoding. The engine's metadata value is (canonical form, unread tokens).
+
+ops (tokens separated by single spaces)
+  read  <members> <eof|err> <oracle>
+  gz    <0|1> <members|@> <eof|err> <clean|corrupt|extra> <oracle>      (@ = the base members)
+  base  <members>                       remember a complete archive; answers count and byte length
+  layout                                regions of the base archive
+  trunc <cut> <oracle>                  base archive cut to its first <cut> bytes
+  bflip <pos> <val> <oracle>            base archive with byte <pos> set to <val>
+members = `-` or comma separated `name;data;short` (name, data as string tokens, short 0|1).
+-/
+import CV.Tar
+import CV.Sha256
 namespace CV.Engine.C20
-open CV
-def step (_ : Unit) (_toks : List String) : Unit × String := ((), "bad-op")
-def engine : Engine := { State := Unit, init := (), step := step }
+open CV CV.Tar
+
+abbrev Meta := Bytes × List (Option Bytes)
+
+/-- the oracle: consume one token per decoded meta.json member -/
+def applyO (m : Meta) (_buf : Bytes) : Option Meta :=
+  match m.2 with
+  | [] => none
+  | none :: _ => none
+  | some c :: rest => some (c, rest)
+
+def parseMember (tok : String) : Option Member :=
+  match tok.splitOn ";" with
+  | [n, d, s] => do
+      let name ← decB n; let data ← decB d; let short ← decBool s
+      pure ⟨name, data, short⟩
+  | _ => none
+
+def parseMembers (tok : String) : Option (List Member) := (decList tok).mapM parseMember
+
+def parseEnding (tok : String) : Option Ending :=
+  if tok == "eof" then some .eof else if tok == "err" then some .err else none
+
+def parseTail (tok : String) : Option GzTail :=
+  if tok == "clean" then some .clean else if tok == "corrupt" then some .corrupt
+  else if tok == "extra" then some .extra else none
+
+def parseOracle (tok : String) : Option (List (Option Bytes)) :=
+  (decList tok).mapM fun t => if t == "!" then some none else (decB t).map some
+
+def errName : Err → String
+  | .tar => "tar" | .metaRead => "meta-read" | .metaJson => "meta-json" | .stateIO => "state-io"
+  | .sumsRead => "sums-read" | .unexpected => "unexpected" | .sumsScan => "sums-scan"
+  | .sumsTooLong => "sums-toolong" | .listMissing => "list-missing" | .hashFailed => "hash-failed"
+  | .fileMissing => "file-missing" | .gzHeader => "gz-header" | .gzTail => "gz-tail" | .gzExtra => "gz-extra"
+
+def verdict : Except Err (Meta × Bytes) → String
+  | .error e => "err " ++ errName e
+  | .ok (m, st) => s!"ok m={encB m.1} n={st.length} h={hexOf (Sha256.sha256 st)}"
+
+/-- the oracle must have one token per meta.json member, otherwise the line is garbled -/
+def oracleFits (ms : List Member) (o : List (Option Bytes)) : Bool :=
+  (ms.filter (·.name = nMeta)).length == o.length
+
+def zeroMeta : Bytes := []
+
+def runRead (s : Stream) (o : List (Option Bytes)) : String :=
+  verdict (readStream Sha256.sha256 applyO (zeroMeta, o) s)
+
+def viewStr (s : Stream) : String :=
+  let ms := s.members.map fun m => encB m.name ++ ":" ++ (if m.short then "s" else "c") ++ toString m.data.length
+  encList ms ++ "/" ++ (match s.ending with | .eof => "eof" | .err => "err")
+
+def clsStr : Cls → String
+  | .header i => s!"hdr{i}" | .data i => s!"data{i}" | .pad i => s!"pad{i}" | .trailer => "trailer"
+
+def regionStr (r : Region) : String := s!"{clsStr r.cls}:{r.start}:{r.len}"
+
+abbrev Base := List (Bytes × Bytes)
+
+def step (base : Base) (toks : List String) : Base × String :=
+  match toks with
+  | ["read", ms, e, o] =>
+    match parseMembers ms, parseEnding e, parseOracle o with
+    | some ms, some e, some o =>
+      if oracleFits ms o then (base, runRead ⟨ms, e⟩ o) else (base, "bad-op")
+    | _, _, _ => (base, "bad-op")
+  | ["gz", h, ms, e, t, o] =>
+    let msP : Option (List Member) := if ms == "@" then some (base.map full) else parseMembers ms
+    match decBool h, msP, parseEnding e, parseTail t, parseOracle o with
+    | some h, some ms, some e, some t, some o =>
+      if oracleFits ms o then
+        (base, verdict (readGz Sha256.sha256 applyO (zeroMeta, o) ⟨h, ⟨ms, e⟩, t⟩))
+      else (base, "bad-op")
+    | _, _, _, _, _ => (base, "bad-op")
+  | ["base", ms] =>
+    match parseMembers ms with
+    | some ms =>
+      if ms.all (fun m => !m.short) then
+        let b : Base := ms.map fun m => (m.name, m.data)
+        (b, s!"ok n={b.length} total={total (b.map (·.2.length))}")
+      else (base, "bad-op")
+    | none => (base, "bad-op")
+  | ["layout"] =>
+    (base, encList ((layout (base.map (·.2.length))).map regionStr))
+  | ["trunc", c, o] =>
+    match c.toNat?, parseOracle o with
+    | some cut, some o =>
+      let s := truncStream base cut
+      if oracleFits s.members o then (base, s!"view={viewStr s} {runRead s o}") else (base, "bad-op")
+    | _, _ => (base, "bad-op")
+  | ["bflip", p, v, o] =>
+    match p.toNat?, v.toNat?, parseOracle o with
+    | some pos, some val, some o =>
+      if val < 256 then
+        match flipViews base pos val with
+        | [s] =>
+          if oracleFits s.members o then (base, s!"view={viewStr s} {runRead s o}") else (base, "bad-op")
+        | [s1, s2] =>
+          if oracleFits s1.members o then
+            (base, s!"chk view={viewStr s1}|{viewStr s2} {runRead s1 o}|{runRead s2 (o.take (s2.members.filter (·.name = nMeta)).length)}")
+          else (base, "bad-op")
+        | _ => (base, "bad-op")
+      else (base, "bad-op")
+    | _, _, _ => (base, "bad-op")
+  | _ => (base, "bad-op")
+
+def engine : Engine := { State := Base, init := [], step := step }
+
 end CV.Engine.C20
